@@ -255,7 +255,9 @@ func NewKernel(ctx context.Context, log *slog.Logger, cfg KernelConfig) (*Kernel
 		return nil, err
 	}
 	initState.Voting.RoundView.PrevCommitProof = committingProof
-	initState.NextRound.RoundView.PrevCommitProof = committingProof
+	// The views clear their PrevCommitProof map in place when they are reset,
+	// so the two views must not share one map.
+	initState.NextRound.RoundView.PrevCommitProof = committingProof.Clone()
 
 	// Note the initial active sessions.
 	if initState.Committing.Height > 0 {
